@@ -312,7 +312,8 @@ def run_tool_history(chk, sc, cfgseed, tool):
                 good = refs[dn] if tool == "taste" else refs[dn][0]
                 if i % 2 == 0 and not good:
                     return "taste on the well-formed plotfile %s (absolute name, first run of the process) reports it bad" % os.path.join("run_" + dn, NAME)
-        if len({core.jdump(r) for r in refs.values()}) < len(refs):
+        if tool not in ("taste", "taste-read") and len({core.jdump(r) for r in refs.values()}) < len(refs):
+            # (a validator's result is a verdict: with three directories two of them share one -- the known verdicts above serve)
             raise core.MachineryError("the directories' plotfiles do not give distinct results for %s" % tool)
         os.chdir(dirs[sc["start"]])
         from harness import alpha as _alpha
